@@ -363,6 +363,100 @@ theorem idiv_eq_fst_divMod (a n : I128) :
     ∀ w : W, a.divModW w = a.divMod ⟨I128.ext64 w, w⟩ :=
   ⟨I128.div_eq_divMod a n, I128.mod_eq_divMod a n, fun _ => rfl⟩
 
+/-! ## remaining predicates / conversions of the arithmetic surface, and the `…64` signed division over `int64Val` -/
+
+/-- `Int128.IsZero` -/
+theorem iisZero_spec (a : I128) : a.isZero = decide (a.toInt = 0) := by
+  have hlt := a.toU.toNat_lt
+  have h := I128.isZero_iff a
+  unfold I128.isZero
+  rw [Bool.eq_iff_iff, decide_eq_true_iff, decide_eq_true_iff, h, I128.toInt_eq]
+  split <;> omega
+/-- `Int128.IsUint128`: the value is non-negative -/
+theorem iisUint128_spec (a : I128) : a.isUint128 = decide (0 ≤ a.toInt) := by
+  have h := I128.isNeg_iff a
+  unfold I128.isUint128
+  rw [Bool.eq_iff_iff, decide_eq_true_iff, decide_eq_true_iff]
+  constructor
+  · intro e; by_contra hc; exact (h.mpr (by omega)) e
+  · intro e; by_contra hc; have := h.mp hc; omega
+/-- `Int128.IsUint64` -/
+theorem iisUint64_spec (a : I128) : a.isUint64 = decide (0 ≤ a.toInt ∧ a.toInt < 2^64) := by
+  have := a.hi.isLt; have := a.lo.isLt
+  unfold I128.isUint64
+  rw [Bool.eq_iff_iff, decide_eq_true_iff, decide_eq_true_iff, U128.w_eq_iff, BitVec.toNat_ofNat]
+  cases a with | mk x y =>
+  rw [I128.toInt_mk]; simp only at *
+  split <;> omega
+/-- `Int128.IsInt64` -/
+theorem iisInt64_spec (a : I128) : a.isInt64 = decide (-2^63 ≤ a.toInt ∧ a.toInt < 2^63) := by
+  have := a.hi.isLt; have := a.lo.isLt
+  have hs : U128.signBit.toNat = 2^63 := by decide
+  have hm : I128.maxU64.toNat = 2^64 - 1 := by decide
+  have hi : I128.maxI64.toNat = 2^63 - 1 := by decide
+  cases a with | mk x y =>
+  unfold I128.isInt64
+  simp only [ne_eq, I128.sign_zero_iff, hs, hi] at *
+  rw [I128.toInt_mk]
+  by_cases h : x.toNat < 2^63
+  · simp only [h, not_true_eq_false, if_false]
+    rw [Bool.eq_iff_iff]
+    simp only [Bool.and_eq_true, decide_eq_true_eq, U128.w_eq_iff, BitVec.toNat_ofNat]
+    split <;> omega
+  · simp only [h, not_false_eq_true, if_true]
+    rw [Bool.eq_iff_iff]
+    simp only [Bool.and_eq_true, decide_eq_true_eq, U128.w_eq_iff, hm]
+    split <;> omega
+/-- `Int128.AsInt64` / `AsUint64`: the value reduced mod 2^64 (exact when `IsInt64` resp. `IsUint64`) -/
+theorem iasInt64_spec (a : I128) :
+    (a.asInt64.toNat : Int) = a.toInt % 2^64 ∧ (a.asUint64.toNat : Int) = a.toInt % 2^64 := by
+  have := a.hi.isLt; have := a.lo.isLt
+  cases a with | mk x y =>
+  have e : I128.asInt64 ⟨x, y⟩ = y := by
+    unfold I128.asInt64; simp only
+    split
+    · apply BitVec.eq_of_toNat_eq
+      rw [BitVec.toNat_neg, BitVec.toNat_not, BitVec.toNat_sub, BitVec.toNat_ofNat]
+      have := y.isLt; omega
+    · rfl
+  rw [e]; unfold I128.asUint64; simp only at *
+  rw [I128.toInt_mk]
+  split <;> omega
+/-- `Uint128.AsUint64`, `IsInt128`, `Uint128From64` -/
+theorem asUint64_spec (a : U128) (v : W) :
+    a.asUint64.toNat = a.toNat % 2^64 ∧ a.isInt128 = decide (a.toNat < 2^127) ∧ (U128.from64 v).toNat = v.toNat := by
+  have := a.hi.isLt; have := a.lo.isLt
+  refine ⟨?_, ?_, ?_⟩
+  · unfold U128.asUint64 U128.toNat; omega
+  · unfold U128.isInt128
+    rw [Bool.eq_iff_iff, decide_eq_true_iff, decide_eq_true_iff, I128.sign_zero_iff]
+    unfold U128.toNat; omega
+  · exact U128.mk0_toNat v
+
+/-- `Int128.Div` and `Int128.Mod` separately (components of `idivMod_spec`) -/
+theorem idiv_imod_spec (a n : I128) (h : n.toInt ≠ 0) :
+    (∃ q, a.div n = .ok q ∧ q.toInt = I128.wrap128 (a.toInt.tdiv n.toInt)) ∧
+    (∃ r, a.mod n = .ok r ∧ r.toInt = a.toInt.tmod n.toInt) := by
+  obtain ⟨q, r, e, hq, hr⟩ := idivMod_spec a n h
+  constructor
+  · exact ⟨q, by rw [I128.div_eq_divMod, e]; rfl, hq⟩
+  · exact ⟨r, by rw [I128.mod_eq_divMod, e]; rfl, hr⟩
+
+/-- **`Int128.DivMod64`** over the value of the `int64` operand: quotient truncated toward zero (reduced mod 2^128),
+    remainder with the sign of the dividend, for every non-zero `int64` divisor -/
+theorem idivMod64_spec (a : I128) (n : W) (h : I128.int64Val n ≠ 0) :
+    ∃ q r, a.divModW n = .ok (q, r) ∧ q.toInt = I128.wrap128 (a.toInt.tdiv (I128.int64Val n)) ∧
+      r.toInt = a.toInt.tmod (I128.int64Val n) := by
+  have e := I128.ext64_toInt n
+  have := idivMod_spec a ⟨I128.ext64 n, n⟩ (by rw [e]; exact h)
+  rw [e] at this
+  exact this
+
+/-- **`Int128.Mod64`**: remainder with the sign of the dividend for every non-zero `int64` divisor -/
+theorem imod64_spec (a : I128) (n : W) (h : I128.int64Val n ≠ 0) :
+    ∃ r, a.modW n = .ok r ∧ r.toInt = a.toInt.tmod (I128.int64Val n) := by
+  obtain ⟨q, r, e, _, hr⟩ := idivMod64_spec a n h
+  exact ⟨r, by unfold I128.modW; rw [e], hr⟩
 /-! non-vacuity: concrete evaluations of the model on each kind of path — 7 / 2 = 3 rem 1 (64-bit fast path);
     the hypotheses of the kernel contracts are met by concrete operands (`divmod128by64`: 2^64 / 3 with high word 1 < 3;
     `divmod128by128`: divisor 2^64 + 1 below dividend 2^65) -/
